@@ -10,7 +10,7 @@ from contracts import shapes as S_
 from contracts.c_utils import ETy, OptET, us, t_time, t_unit, mk
 from contracts.c_events import EL, q_list, is_heap, mem, ev_time, ev_type, ev_task, et, lst_mod, EVENT
 from contracts.c_tasks import TASK, RUNNING, SCHEDULED, PREEMPTED, COMPLETED, CANCELLED, EVICTED, VIRTUAL, RELEASED, wf_task, some, get, fld as tfld
-from contracts.c_taskgraph import TG, TGR, GRAPH, Adj, TaskList, ready_to_run, g_children, g_parents, task_state
+from contracts.c_taskgraph import TG, TGR, GRAPH, Adj, TaskList, ready_to_run, g_children, g_parents, task_state, closed_graph
 from contracts.c_simulator import SIM, Simulator, sim_queue, sim_time, FutureMap, closed_queue, WPS, POOL, PoolMap
 
 WORKLOAD = "workload.workload.Workload"
@@ -85,7 +85,7 @@ def _tg_cancel_ens(c):
     return z3.And(
         r >= c.alloc0,
         # exactly the closure is returned, every member ends CANCELLED with the given cancellation time; others keep their state
-        z3.ForAll([x], c.post.l_mem(TaskList, r, x) == closure(c.pre, g, task, x), patterns=[c.post.l_mem(TaskList, r, x)]),
+        z3.ForAll([x], c.post.l_mem(TaskList, r, x) == closure(c.pre, g, task, x), patterns=[c.post.l_mem(TaskList, r, x), closure(c.pre, g, task, x)]),
         z3.ForAll(
             [x],
             z3.If(
@@ -156,6 +156,13 @@ def _hp_names(c):
     return s, ev, task, wl, g
 
 
+def _parents_wf(h, g, task):
+    from contracts.c_taskgraph import n_parents, parent_at
+
+    j = z3.Int(H.fresh_name("pw_j"))
+    return z3.ForAll([j], z3.Implies(z3.And(0 <= j, j < n_parents(h, g, task)), wf_task(h, parent_at(h, g, task, j))), patterns=[parent_at(h, g, task, j)])
+
+
 def _hp_requires(c):
     s, ev, task, wl, g = _hp_names(c)
     return {
@@ -169,6 +176,8 @@ def _hp_requires(c):
             z3.And(g != 0, c.pre.d_dom(Adj, g_children(c.pre, g), task), g_children(c.pre, g) != g_parents(c.pre, g)),
         ),
         "event_at_clock": us(ev_time(c.pre, ev)) >= 0,
+        # the Task representation invariant (preserved by every Task mutator, c_tasks) holds for the task's parents
+        "parents_wf": _parents_wf(c.pre, g, task),
     }
 
 
@@ -247,7 +256,19 @@ def _cancel_loop_inv(c, L):
 def _cancel_loop_lemmas(c, L, phase):
     s = c.arg("self")
     if phase == "exit":
-        return [Fact("list.mem_def", c.post.l_mem_def(TaskList, L.seq.z))]
+        # intermediate step (checked): the index-wise invariant restated over members of the cancelled list
+        h = c.post
+        lst = sim_queue(c.pre, s)
+        x = z3.Int(H.fresh_name("clx_x"))
+        e = z3.Int(H.fresh_name("clx_e"))
+        new_event = lambda y: z3.And(mem(h, lst, y), z3.Not(mem(c.pre, lst, y)))
+        return [
+            Fact("list.mem_def", c.post.l_mem_def(TaskList, L.seq.z)),
+            Step(
+                "every_cancelled_member_reported",
+                z3.ForAll([x], z3.Implies(h.l_mem(TaskList, L.seq.z, x), z3.Exists([e], z3.And(new_event(e), ev_type(h, e) == et("TASK_CANCEL"), ev_task(h, e) == x))), patterns=[h.l_mem(TaskList, L.seq.z, x)]),
+            ),
+        ]
     if phase == "start":
         return [Fact("list.index_mem", c.post.l_index_mem(EL, sim_queue(c.pre, s)))]
     return []
@@ -271,7 +292,7 @@ Contract(
     loops={0: Loop(inv=_cancel_loop_inv, modifies=_cancel_loop_mod, lemmas=_cancel_loop_lemmas)},
     drops=("resource_allocation_str = ",),
     ensures=_hp_ens,
-    entry_facts=lambda c: [closed_queue(c)],
+    entry_facts=lambda c: [closed_queue(c), closed_graph(c, _hp_names(c)[4])],
     allocates=True,
     note="may raise AssertionError (bookkeeping asserts), ValueError (max() of an empty parent list for a source task that is not ready) and AttributeError (None pool / strategy); those paths are not constrained",
     props=P,
@@ -679,4 +700,150 @@ Contract(
     allocates=True,
     note="exception paths (wrong placement type, PREEMPTED task, skip helper) are not constrained",
     props=("C16", "C06", "C02", "C03"),
+)
+
+
+# =================================================================================================
+# Simulator.simulate : the main loop body (C03 loop.step_le_min_remaining / loop.event_at_its_time, clock never backwards)
+# =================================================================================================
+from contracts.c_simulator import queue_not_in_past  # noqa: E402
+
+Contract(
+    "workers.workers.WorkerPools.get_placed_tasks",
+    params={"self": T.Ref(WPS)},
+    ret=TaskList,
+    trusted=True,
+    allocates=True,
+    ensures=lambda c: z3.And(
+        c.res >= c.alloc0,
+        z3.ForAll([z3.Int("gp_x")], z3.Implies(c.post.l_mem(TaskList, c.res, z3.Int("gp_x")), z3.And(z3.Int("gp_x") > 0, z3.Int("gp_x") < c.alloc0, wf_task(c.pre, z3.Int("gp_x")))), patterns=[c.post.l_mem(TaskList, c.res, z3.Int("gp_x"))]),
+        z3.ForAll(
+            [z3.Int("gp_j")],
+            z3.Implies(
+                z3.And(0 <= z3.Int("gp_j"), z3.Int("gp_j") < c.post.c_len(TaskList, c.res)),
+                z3.And(c.post.l_elem(TaskList, c.res, z3.Int("gp_j")) > 0, c.post.l_elem(TaskList, c.res, z3.Int("gp_j")) < c.alloc0, wf_task(c.pre, c.post.l_elem(TaskList, c.res, z3.Int("gp_j")))),
+            ),
+            patterns=[c.post.l_elem(TaskList, c.res, z3.Int("gp_j"))],
+        ),
+    ),
+    note="WorkerPools.get_placed_tasks: the tasks resident on the cluster (a fresh list); every such task satisfies the Task representation invariant (which every Task mutator is proved to preserve)",
+    props=("C03", "C05"),
+)
+
+
+def _he_mod(c):
+    s = c.arg("self")
+    out = lst_mod(c, sim_queue(c.pre, s))
+    for cls_, info in (("T", S_.Task), ("E", S_.Event)):
+        pass
+    for f in S_.Task.fields:
+        if f != "_logger":
+            out[c.pre.fld_arr(TASK, f)[0]] = ANY
+    for f in ("_event_type", "_time", "_task", "_task_graph", "_placement"):
+        out[c.pre.fld_arr(EVENT, f)[0]] = ANY
+    for f in Simulator.fields:
+        if f not in ("_logger", "_csv_logger", "_log_dir", "_simulator_time", "_event_queue"):
+            out[c.pre.fld_arr(SIM, f)[0]] = [s]
+    return out
+
+
+Contract(
+    "simulator.Simulator.__handle_event",
+    params={"self": Simulator.ty, "event": S_.Event.ty},
+    ret=T.BOOL,
+    trusted=True,
+    allocates=True,
+    requires=lambda c: {
+        "heap_ok": is_heap(c.pre, sim_queue(c.pre, c.arg("self"))),
+        # C03: an event takes effect only when the clock has reached its time
+        "event_at_its_time": us(ev_time(c.pre, c.arg("event"))) == us(sim_time(c.pre, c.arg("self"))),
+    },
+    may_raise=("ValueError", "RuntimeError", "AttributeError", "AssertionError", "KeyError", "NotImplementedError"),
+    modifies=_he_mod,
+    ensures=lambda c: z3.And(
+        is_heap(c.post, sim_queue(c.pre, c.arg("self"))),
+        z3.Implies(queue_not_in_past(c.pre, c.arg("self")), queue_not_in_past(c.post, c.arg("self"))),
+        sim_queue(c.post, c.arg("self")) == sim_queue(c.pre, c.arg("self")),
+    ),
+    note="__handle_event (dispatch to the handlers): assumed to keep the queue a valid heap and to queue nothing in the past (each handler under contract proves its part: heap_ok, events not in the past); does not move the clock",
+    props=("C03", "C05"),
+)
+
+
+def _sim_inv(c, L):
+    s = c.arg("self")
+    h = c.post
+    return {
+        "heap_ok": is_heap(h, sim_queue(h, s)),
+        "queue_not_in_past": queue_not_in_past(h, s),
+        "queue_list_stable": z3.And(sim_queue(h, s) == sim_queue(c.pre, s), sim_queue(h, s) > 0, h.rd(s, SIM, "_event_queue")[1] == c.pre.rd(s, SIM, "_event_queue")[1]),
+        # C03: the simulated clock never moves backwards
+        "clock_monotone": us(sim_time(h, s)) >= us(sim_time(c.pre, s)),
+    }
+
+
+def _sim_loop_mod(c):
+    return _he_mod(c) | {c.pre.fld_arr(SIM, "_simulator_time")[0]: [c.arg("self")]}
+
+
+def _le_every_remaining(c, L, d):
+    """d does not exceed the remaining time of any resident task (Task.remaining_time's by-state value)"""
+    h = c.post
+    lst = L.var("running_tasks")
+    j = z3.Int(H.fresh_name("sr_j"))
+    t = h.l_elem(TaskList, lst, j)
+    return z3.ForAll([j], z3.Implies(z3.And(0 <= j, j < h.c_len(TaskList, lst)), us(d) <= us(remaining_time_spec(h, t))), patterns=[h.l_elem(TaskList, lst, j)])
+
+
+def _at_step_min(c, L):
+    """C03: the loop advances by min(smallest remaining time, time to the next event)"""
+    d = L.var("min_task_remaining_time")
+    tun = L.var("time_until_next_event")
+    return {"loop.step_le_time_to_next_event": us(d) <= us(tun), "loop.step_le_every_remaining_time": _le_every_remaining(c, L, d)}
+
+
+def _at_step_tun(c, L):
+    s = c.arg("self")
+    h = c.post
+    tun = L.var("time_until_next_event")
+    out = {}
+    if L.has("min_task_remaining_time"):
+        out["loop.step_le_min_remaining_time"] = us(tun) <= us(L.var("min_task_remaining_time"))
+    out["loop.step_le_every_remaining_time"] = _le_every_remaining(c, L, tun)
+    out["loop.step_to_next_event_is_nonneg"] = us(tun) >= 0
+    out["loop.step_reaches_earliest_event"] = earliest_at(h, s, us(sim_time(h, s)) + us(tun))
+    return out
+
+
+def earliest_at(h, s, t):
+    """t is the time of an earliest queued event: nothing queued before t, something queued at t"""
+    e = z3.Int(H.fresh_name("ea_e"))
+    q = sim_queue(h, s)
+    return z3.And(
+        z3.ForAll([e], z3.Implies(mem(h, q, e), us(ev_time(h, e)) >= t), patterns=[mem(h, q, e)]),
+        z3.And(mem(h, q, h.l_elem(EL, q, 0)), us(ev_time(h, h.l_elem(EL, q, 0))) == t),
+    )
+
+
+Contract(
+    "simulator.Simulator.simulate",
+    params={"self": Simulator.ty},
+    requires=lambda c: {
+        "heap_ok": is_heap(c.pre, sim_queue(c.pre, c.arg("self"))),
+        "queue_not_in_past": queue_not_in_past(c.pre, c.arg("self")),
+        "queue_is_own_list": sim_queue(c.pre, c.arg("self")) > 0,
+    },
+    may_raise=("ValueError", "RuntimeError", "AttributeError", "AssertionError", "KeyError", "NotImplementedError", "IndexError"),
+    raise_unchanged=False,
+    modifies=_sim_loop_mod,
+    loops={0: Loop(inv=_sim_inv, modifies=_sim_loop_mod)},
+    at={
+        "self.__step(step_size=min_task_remaining_time)": _at_step_min,
+        "self.__step(step_size=time_until_next_event)": _at_step_tun,
+    },
+    ensures=lambda c: {"clock.never_backwards": us(sim_time(c.post, c.arg("self"))) >= us(sim_time(c.pre, c.arg("self")))},
+    entry_facts=lambda c: [closed_queue(c)],
+    allocates=True,
+    note="exceptions raised by the handlers propagate (not constrained); termination of the loop is not proved (C05 liveness)",
+    props=("C03", "C05"),
 )
